@@ -115,6 +115,55 @@ def load_module(funcs):
     return mod, path
 
 
+CLI_CONFIG_SRC = '''
+import os
+from monkeytype.config import Config
+from monkeytype.db.sqlite import SQLiteStore
+from monkeytype.typing import NoOpRewriter
+
+
+class GenConfig(Config):
+    def trace_store(self):
+        return SQLiteStore.make_store(os.environ["MTG_DB"])
+
+    def max_typed_dict_size(self):
+        return int(os.environ.get("MTG_K", "0"))
+
+    def type_rewriter(self):
+        return NoOpRewriter()
+
+
+CONFIG = GenConfig()
+'''
+CLI_FLAGS = {"REPLICATE": [], "OMIT": ["--omit-existing-annotations"], "IGNORE": ["--ignore-existing-annotations"]}
+
+
+def stub_via_cli(modname, traces, case):
+    """The same stub through the command line: traces -> SQLite store -> `monkeytype stub <module> [option]`."""
+    import io
+    from monkeytype import cli
+    from monkeytype.db.sqlite import SQLiteStore
+    cfgp = os.path.join(_DIR[0], "mtg_config.py")
+    if not os.path.exists(cfgp):
+        with open(cfgp, "w") as fh:
+            fh.write(CLI_CONFIG_SRC)
+        importlib.invalidate_caches()
+    db = os.path.join(_DIR[0], modname + ".db")
+    os.environ.update(MTG_DB=db, MTG_K=str(case["k"]))
+    try:
+        st = SQLiteStore.make_store(db)
+        st.add(traces)
+        st.conn.close()
+        out, err = io.StringIO(), io.StringIO()
+        rc = cli.main(["-c", "mtg_config:CONFIG", "stub", modname] + CLI_FLAGS[case["strategy"]], out, err)
+        if rc != 0:
+            raise RuntimeError("stub exited %s: %s" % (rc, err.getvalue()[-200:]))
+        return out.getvalue().rstrip("\n")
+    finally:
+        if os.path.exists(db):
+            os.unlink(db)
+
+
 def live_function(mod, f):
     obj = mod
     for c in f["container"]:
@@ -149,8 +198,11 @@ def run_module_case(case):
         strategy = getattr(ExistingAnnotationStrategy, case["strategy"])
         err, text = "NONE", ""
         try:
-            stubs = build_module_stubs_from_traces(traces, case["k"], strategy, None)
-            text = stubs[mod.__name__].render() if mod.__name__ in stubs else ""
+            if case.get("via_cli"):
+                text = stub_via_cli(mod.__name__, traces, case)
+            else:
+                stubs = build_module_stubs_from_traces(traces, case["k"], strategy, None)
+                text = stubs[mod.__name__].render() if mod.__name__ in stubs else ""
         except Exception as e:
             err = type(e).__name__
         own = {n: v for n, v in vars(mod).items() if isinstance(v, type) and v.__module__ == mod.__name__}
@@ -230,6 +282,8 @@ def run_module_case(case):
 def _run_chunk(chunk):
     core.use_repo()
     envgen.load_fixture_classes()
+    import logging
+    logging.disable(logging.CRITICAL)
     recs = [run_module_case(c) for c in chunk]
     return recs, (absmodel.TABLE.mro, absmodel.TABLE.bases, absmodel.TABLE.modqn)
 
@@ -303,6 +357,8 @@ def gen_c12(tier, seed):
         if not any(f.get("traces") for f in grp):
             grp[0]["traces"] = traces_for(grp[0]["params"])
         cases.append({"funcs": grp, "strategy": "REPLICATE", "k": 0, "family": "c12_shapes"})
+        if (i // 6) % 3 == 0:    # the same module through the store and `monkeytype stub`
+            cases.append({"funcs": [dict(f) for f in grp], "strategy": "REPLICATE", "k": 0, "family": "c12_shapes_via_cli", "via_cli": True})
     # the same qualified name with a different kind in every module (many modules per process)
     for n in range(60 if tier == "quick" else 600):
         fk = ["instance", "class", "static"][n % 3] if n % 4 else "property"
@@ -370,6 +426,8 @@ def gen_c13(tier, seed):
             f = {"name": "g%d" % n, "container": cont, "fkind": fk, "params": params, "ret_ann": retann,
                  "is_gen": yld is not None, "traces": [{"args": targs, "ret": ret, "yld": yld}]}
             cases.append({"funcs": [f], "strategy": strategy, "k": 0, "family": "c13_matrix"})
+            if n % 4 == 0:    # the same cell through `monkeytype stub [--omit-existing-annotations | --ignore-existing-annotations]`
+                cases.append({"funcs": [f], "strategy": strategy, "k": 0, "family": "c13_matrix_via_cli", "via_cli": True})
     # an annotated receiver: under OMIT it must carry no annotation like every other annotated position
     for n, (fk, recv_ann) in enumerate([("instance", "'Cls'"), ("class", "type"), ("instance", "Any")] * (2 if tier == "quick" else 20)):
         params = [{"name": "p0", "kind": "poskw", "default": None, "ann": "int" if n % 2 else None}]
@@ -406,6 +464,24 @@ def gen_c11(tier, seed, env_text):
     for t in ctxtd:
         fk, cont = rng.choice([("module", ()), ("instance", ("Cls",)), ("static", ("Cls",))])
         add(t, rng.choice(ctxtd), t, t if rng.random() < 0.3 else None, 3, "c11_typeddict", fk=fk, cont=cont)
+    n0 = len(cases)
+    storable = [t for t in ctx if "tuplevar" not in kinds_in(t, set())]     # Tuple[T, ...] cannot be stored (C08 finding)
+    for t in rng.sample(storable, min(len(storable), 200)) + rng.sample(ctxtd, min(len(ctxtd), 60)):    # through the store and `monkeytype stub`
+        add(t, rng.choice(storable), rng.choice(storable), None, 3, "c11_via_cli")
+    for c in cases[n0:]:
+        c["via_cli"] = True
+    # a TypedDict one of whose fields holds TypedDicts inside a container (each needs a class of its own)
+    inner = T("td", "", [], [T("req", "sku", [STR]), T("req", "qty", [INT])])
+    inner2 = T("td", "", [], [T("req", "w", [INT])])
+    holders = [lambda x: T("list", "", [x]), lambda x: T("set", "", [x]), lambda x: T("tuple", "", [x, INT]),
+               lambda x: T("tuple", "", [INT, x]), lambda x: T("dict", "", [STR, x]), lambda x: T("union", "", [], [x, T("cls", "NoneType")]),
+               lambda x: T("iterator", "", [x]), lambda x: T("list", "", [T("list", "", [x])]),
+               lambda x: T("tuple", "", [x, inner2])]
+    for n, h in enumerate(holders):
+        outer = T("td", "", [], [T("req", "id", [INT]), T("req", "items", [h(inner)])])
+        fk, cont = [("module", ()), ("instance", ("Cls",))][n % 2]
+        add(outer, INT, None, None, 3, "c11_typeddict_in_container_field", fk=fk, cont=cont)
+        add(INT, outer, h(outer), None, 3, "c11_typeddict_in_container_field", fk=fk, cont=cont)
     # replicated source annotations that are strings / NewTypes / classes of other modules (no trace for that position)
     for ann in ("'Own'", "ExtId", "zutil.A", "Optional['Own']", "List[ExtId]"):
         f = {"name": "ann_" + str(abs(hash(ann)) % 1000), "container": [], "fkind": "module",
@@ -462,7 +538,7 @@ def signature(pid, clause, rec, case):
         if {"monkeytype", "DUMMY_NAME"} & (set(rec["unres_sig"]) | set(rec["unres_td"])):
             cause = "typeddict_not_replaced_below_a_generic_the_rewriter_does_not_visit"
         elif rec["unres_td"]:
-            cause = "typeddict_field_annotation_keeps_module_prefix"
+            cause = "typeddict_field_annotation_does_not_resolve"
         elif "newtype" in mods and rec["unres_sig"]:
             cause = "replicated_newtype_annotation_not_imported"
         elif not rec["tdok"]:
